@@ -11,7 +11,7 @@ Theorem C02_operator_table : forall p bare raw tgt,
   fd_wf p = true -> In bare (bash_dup_op :: bash_write_ops) ->
   fst (redirect_file raw tgt) = false ->
   bash_writes_bare bare (snd (redirect_file raw tgt)) = true ->
-  redirect_check (fd_text p ++ bare) raw tgt = Some (snd (redirect_file raw tgt)) \/
+  redirect_check (fd_text p ++ bare) raw tgt = Some (lookup_name raw (snd (redirect_file raw tgt))) \/
   In (snd (redirect_file raw tgt)) nonfile_sinks.
 Proof. exact class_covers_bash. Qed.
 Print Assumptions C02_operator_table.
